@@ -96,11 +96,26 @@ def run(prog, R):
     for (caller, callee, bb), mask in G.edge_first.items():
         per[(caller, callee)].append((bb, mask))
     nee = 0
-    for e in json.load(open(os.path.join(VERIF, "spec", "expr_edges.json"))):
+    EDGES_ = json.load(open(os.path.join(VERIF, "spec", "expr_edges.json")))
+    for e in EDGES_:
         nee += 1
         lst = sorted(per.get((e["caller"], e["callee"]), []))
         key = f"{short(e['caller'])}->{e['callee'].split('::')[-1]}:{e['ordinal']}"
         if e["ordinal"] >= len(lst):
+            # the hand-over may have moved into a helper of the caller (e.g. `'(' expr ')'` shared by if / while /
+            # switch): the helper's own hand-overs are then reached with at least the frozen tokens
+            frozen_callers = {x["caller"] for x in EDGES_}
+            cgx = prog.callgraph()
+            hm = 0
+            for h_ in cgx.get(e["caller"], ()):
+                if h_ in frozen_callers or not h_.startswith("oq3_parser::grammar::"):
+                    continue
+                for bb_, m_ in per.get((h_, e["callee"]), []):
+                    hm |= m_
+            lost_h = [k for k in e["admits"] if k in G.kdisc and not hm & (1 << G.kdisc[k])]
+            if hm and not lost_h:
+                R.ob("C04.2-expression-position", key, True, prog.body(e["caller"]).at if prog.body(e["caller"]) else "", "reached through a helper of the caller with all the frozen expression-start tokens")
+                continue
             R.ob("C04.2-expression-position", key, False, prog.body(e["caller"]).at if prog.body(e["caller"]) else "", "this hand-over to the expression parser no longer exists (or is never reached): its admitted tokens cannot be compared; re-confirm the table (tools/gen_expr_edges.py)")
             continue
         mask = lst[e["ordinal"]][1]
